@@ -96,6 +96,7 @@ Section Collect.
       gen_collect_last_value, gen_collect_gae_gamma, gen_collect_gae_lambda, collect.
     rewrite !Nat2Z.id.
     change (ksplit_keys (ks k 2 0) T) with (split_keys (ks k 2 0) T).
+    unfold kfoldmapi.
     match goal with |- context [kfoldmap ?f _ _] => set (F := f) end.
     assert (HF : forall c0 es0 ps0 k0,
       snd (fst (fst (F (c0, es0, ps0) k0))) = fst (fst (op_step gamma E P (es0, ps0) k0)) /\
